@@ -212,3 +212,23 @@ def run_chains(rep, n1=600, n2=2400):
             if b[4] > 2.0 * max(a[4], 256):
                 hits.append(("MEM", b[1], "bytes allocated by ParseStatements per token grow with the input: %d at %d tokens, %d at %d tokens" % (a[4], a[2], b[4], b[2]), b[2], b[4]))
     return hits, {"constructs": len(outs[0]), "sizes": [n1, n2], "max_growth_of_bytes_per_token": round(worst_mem, 2), "max_growth_of_steps_per_token": round(worst_steps, 2)}
+
+
+def run_truncations(rep, n=1500):
+    """Every token prefix of n corpus statements through Parse under the proved step budget: a parser that does not see a
+    sticky EOF at the end of a truncated statement does not terminate. Returns (hits, cases)."""
+    E, B, _ = bounds()
+    cases = os.path.join(verif.BUILD, "trunc_cases_%s.txt" % rep.pid)
+    rc, out = verif.sh([PSEARCH, "gen", "-mode", "truncate", "-n", str(n)], timeout=900)
+    open(cases, "w").write(out)
+    outp = cases + ".out"
+    verif.parallel_map_files([PSEARCH, "run", "-E", str(E), "-B", str(B)], cases, outp, timeout=3000)
+    hits, total = [], 0
+    with open(cases) as fc, open(outp) as fo:
+        for c, o in zip(fc, fo):
+            total += 1
+            p = o.rstrip("\n").split("\t")
+            if len(p) >= 4 and p[0] in ("BUDGET", "SLOW") and len(hits) < 10:
+                hits.append((p[0], c.strip(), p[3], int(p[1]), int(p[2])))
+    hits.sort(key=lambda h: len(h[1]))
+    return hits, total
